@@ -133,6 +133,13 @@ def main(tier: str) -> int:
                        "prefixOK": gotn == full[:len(gotn)], "outcome": "raise" if exc else "eof"}
                 records.append(rec)
                 meta.append((label, integ, data, cut, exc))
+                if cut % 5 == 0 and 0 < cut < len(data):
+                    # the same cut on a link that is LOST rather than closed: the read raises; every statement of the frames that arrived must have been handed over
+                    got, exc = drain(integ, None, source=framing.LostLink(data[:cut], [], then=(7 if cut % 10 else 4096)))
+                    gotn = [norm(x) for x in got]
+                    records.append({"id": len(records), "ends": ends, "counts": counts, "cut": cut, "yielded": len(gotn),
+                                    "prefixOK": gotn == full[:len(gotn)], "outcome": "raise" if exc else "eof"})
+                    meta.append((label + "/lost-link", integ, data, cut, exc))
     verdicts, jr = judge_truncations(records)
     classes = set()
     samples = []
@@ -147,7 +154,7 @@ def main(tier: str) -> int:
             run.violation({"clause": v["verdict"], "integ": integ, "cut_class": where},
                           f"stream cut at byte {cut}/{len(data)} ({where}): parser yielded {rec['yielded']} items ({v['verdict']}), then {rec['outcome']}",
                           {"stream": label, "cut": cut, "hex": data.hex()[:4000], "frame_ends": rec["ends"], "items_per_frame": rec["counts"], "exception": exc})
-        elif v["expect"] != rec["outcome"] and cut >= 3:
+        elif v["expect"] != rec["outcome"] and cut >= 3 and not label.endswith("/lost-link"):     # (a lost link always ends in the source's own exception)
             run.model_drift(f"cut {cut} ({where}) of {label}: expected the parser to {v['expect']}, it did {rec['outcome']}")
         if len(samples) < 3 and where == "inside-length-or-payload" and rec["yielded"] > 0:
             samples.append({"stream": label, "cut": cut, "of": len(data), "yielded": rec["yielded"], "outcome": rec["outcome"]})
